@@ -227,7 +227,11 @@ def replay_path(args):
         if not s.can(a, c):
             return [("C15/decorator/step-not-enabled", {"engine": "decorator", "spec": "Decorator", "path": [x["a"] for x in path], "step": j,
                                                        "expected": e["a"], "observed": s.project()})]
-        s.apply(a, c, arg)
+        try:
+            s.apply(a, c, arg)
+        except Exception as ex:  # noqa: BLE001
+            return [("C15/decorator/calling-the-decorated-function-fails",
+                     {"engine": "decorator", "spec": "Decorator", "path": [x["a"] for x in path], "step": j, "observed": repr(ex)})]
         got = s.project()
         exp = {"pc": list(e["t"]["pc"]), "how": list(e["t"]["how"]), "res": list(e["t"]["res"]), "gen": list(e["t"]["gen"]),
                "en": list(e["t"]["en"]), "ex": list(e["t"]["ex"])}
